@@ -39,3 +39,8 @@ Theorem fast_len_generated (l : ledger) :
                     | Some lo, Some hi => time_slice l lo hi None
                     | _, _ => Err 9 end.
 Proof. unfold step, gen_fast_len_lo, gen_fast_len_hi. destruct (prev_fast_len (len l)); reflexivity. Qed.
+
+(* Signal.contains is the half-open test (t0 <= t) & (t < t1) - False without a start time -, its two isclose terms acting only within
+   Time's resolution of an edge (pinned syntax tree, re-read on every run) *)
+Theorem contains_generated : gen_contains_is_half_open = true.
+Proof. reflexivity. Qed.
